@@ -60,6 +60,9 @@ SymWhy(op, a, res) ==
           ELSE IF ~res.idempotent THEN "not-idempotent"
           \* "an already symmetric tensor keeps its value": also after the result is written to
           ELSE IF ~res.independent THEN "result-shares-storage-with-the-operand"
+          \* the default algorithm leaves a group that is already symmetric alone: such a tensor keeps its value bit for bit
+          \* (observed at values that are not dyadic, where averaging k equal numbers is not the identity)
+          ELSE IF a.version = 0 /\ IsSymmetric(a.X, a.grps) /\ ~res.keeps_exactly THEN "symmetric-input-changed"
           ELSE "ok")
   ELSE IF op = "issymmetric" THEN
          (IF res.val # IsSymmetric(a.X, a.grps) THEN "wrong-answer"
